@@ -17,6 +17,13 @@ S=/tmp/seedv/$ID-$TAG; rm -rf $S; mkdir -p /tmp/seedv; git -C /repo worktree add
 trap 'git -C /repo worktree remove --force $S >/dev/null 2>&1' EXIT
 cd $S
 ( cd $D/demo && tar cf - . ) | tar xf -
+stubs() { # SEED_STUBS=1: make the entrance packages compile in the scratch worktree (harmony cgo BLS is missing in this sandbox)
+  cp /tmp/seed/stubs/header_sync_harmony_header_sync.go native/service/header_sync/harmony/header_sync.go
+  rm -f native/service/header_sync/harmony/state.go native/service/header_sync/harmony/utils.go native/service/header_sync/harmony/*_test.go
+  cp /tmp/seed/stubs/cross_chain_manager_harmony_harmony_handler.go native/service/cross_chain_manager/harmony/harmony_handler.go
+  rm -f native/service/cross_chain_manager/harmony/*_test.go
+}
+[ "${SEED_STUBS:-0}" = 1 ] && stubs
 echo "== demo WITHOUT patch"; bash -c "$DEMO" > $D/demo_without.log 2>&1; RW=$?; tail -3 $D/demo_without.log
 git apply $D/patch.diff || { echo "PATCH DOES NOT APPLY"; exit 2; }
 echo "== demo WITH patch"; bash -c "$DEMO" > $D/demo_with.log 2>&1; RP=$?; tail -3 $D/demo_with.log
@@ -24,6 +31,7 @@ echo "== build"; go build ./account/... ./common/... ./consensus/... ./core/... 
 echo "== baseline tests with patch"
 # remove the demo so that it does not count as a test failure
 ( cd $D/demo && find . -type f ) | while read f; do rm -f "$S/$f"; done
+[ "${SEED_STUBS:-0}" = 1 ] && git checkout -q -- native/service/header_sync/harmony native/service/cross_chain_manager/harmony
 go test -json -vet=off -count=1 -timeout 25m ./... > $D/baseline_with_patch.json 2>/dev/null
 python3 /verif/baseline_compare.py $D/baseline_with_patch.json | tee $D/baseline_with_patch.txt | head -8
 BL=$(head -1 $D/baseline_with_patch.txt)
